@@ -609,10 +609,23 @@ pub fn xbuild_emit(dir: &Path, seed: u64, n: u32) -> Result<(), String> {
         let m = strat.new_tree(&mut runner).map_err(|e| e.to_string())?.current();
         let (right, left, cost) = m.render();
         let rc = RefConn::from_bigram(&m);
+        // a valid model that this build cannot compile is a violation, not an obstacle: it is
+        // recorded next to the exchange files and reported by the main run (absorb_xresults)
+        let (raw, dual) = match (costs_of(&right, &left, &cost, false), costs_of(&right, &left, &cost, true)) {
+            (Ok(a), Ok(b)) => (a, b),
+            (a, b) => {
+                let e = a.err().or(b.err()).unwrap_or_default();
+                let _ = std::fs::write(
+                    dir.join("emit_failure.json"),
+                    serde_json::to_vec(&serde_json::json!({"error": e, "bigram.right": right, "bigram.left": left, "bigram.cost": cost})).unwrap(),
+                );
+                continue;
+            }
+        };
         let x = XModel {
             dual_exact: rc.fits16.iter().flatten().copied().collect(),
-            raw: costs_of(&right, &left, &cost, false)?,
-            dual: costs_of(&right, &left, &cost, true)?,
+            raw,
+            dual,
             k: m.k(),
             right,
             left,
